@@ -255,6 +255,17 @@ theorem phase2_fields_irrelevant (t : Tx) (v : Bool) (c : List In) (r : Option O
     specConserved { t with valid := v, coll := c, collRet := r, totalColl := tc } = specConserved t :=
   ⟨rfl, rfl⟩
 
+/-- What the `pure=` field of the op checks of the Go code: validation is a function of
+    the transaction and the ledger state alone, so validating the same transaction again
+    gives the same verdicts (and cannot change what the transaction reports: the model's
+    rules return only a verdict). In the model this holds by construction; the harness
+    validates every decoded transaction twice and compares verdicts, outputs, Produced(),
+    stored bytes, mint and the state's UTxOs before and after. -/
+def validateTwice (t : Tx) : (Verdict × Bool × Bool) × (Verdict × Bool × Bool) :=
+  ((rule t, badInputs t, certDepositsBad t), (rule t, badInputs t, certDepositsBad t))
+
+theorem revalidation_same (t : Tx) : (validateTwice t).2 = (validateTwice t).1 := rfl
+
 /-! ### witnesses of the recorded findings (the code departs from the formula) -/
 
 def wCertAmount : Tx where
